@@ -667,33 +667,35 @@ def ctor_misuse(types, res, seed):
             except Exception:
                 badarg = None
             if badarg is not None:
-                own2 = place.traced("np", 13 + size + 64, default_alignment=1)
-                own2.update_from_buffer(own2.allocate(13), place.poison(13, seed + 4))
-                reg = own2.allocate(size + 8)
-                own2.update_from_buffer(reg, place.poison(size + 8, seed + 5))
-                before = place.whole(own2)
-                free0, cap0, chunks0 = own2.get_free(), own2.capacity, [(c.start, c.end) for c in own2.chunks]
-                res.cases += 1
-                res.transitions += 1
-                res.events["x-offset"] += 1
-                cid = dict(type=t, type_str=xt.show(t), misuse="x-refused-at-explicit-offset", leaf=common.jsonable(list(sc[-1])))
-                f = cons.feats(t, "ramp", "py", "x-refused-at-explicit-offset")
-                f["misuse"] = "x-refused-at-explicit-offset"
-                try:
-                    xt.construct(t, badarg, _buffer=own2, _offset=reg)
-                except Exception as e:
-                    res.oracles["raised"] += 1
-                    after = place.whole(own2)
-                    outside_changed = [i for i in range(min(len(before), len(after))) if before[i] != after[i] and not (reg <= i < reg + size)]
-                    books = (own2.get_free(), own2.capacity, [(c.start, c.end) for c in own2.chunks])
-                    if outside_changed or books != (free0, cap0, chunks0):
-                        res.violations.append(common.violation("C11.no-side-effect", "buffer-touched-by-refused-constructor:x-refused-at-explicit-offset", f, cid,
-                                                               "bytes outside the region %r, allocator books %r -> %r" % (outside_changed[:6], (free0, cap0, chunks0), books)))
+                for lead in (13, 0):
+                    own2 = place.traced("np", lead + size + 64, default_alignment=1)
+                    if lead:  # lead 0: the reserved region is the FIRST allocation of the buffer (explicit offset 0)
+                        own2.update_from_buffer(own2.allocate(lead), place.poison(lead, seed + 4))
+                    reg = own2.allocate(size + 8)
+                    own2.update_from_buffer(reg, place.poison(size + 8, seed + 5))
+                    before = place.whole(own2)
+                    free0, cap0, chunks0 = own2.get_free(), own2.capacity, [(c.start, c.end) for c in own2.chunks]
+                    res.cases += 1
+                    res.transitions += 1
+                    res.events["x-offset"] += 1
+                    cid = dict(type=t, type_str=xt.show(t), misuse="x-refused-at-explicit-offset", leaf=common.jsonable(list(sc[-1])), lead=lead)
+                    f = cons.feats(t, "ramp", "py", "x-refused-at-explicit-offset")
+                    f["misuse"] = "x-refused-at-explicit-offset"
+                    try:
+                        xt.construct(t, badarg, _buffer=own2, _offset=reg)
+                    except Exception as e:
+                        res.oracles["raised"] += 1
+                        after = place.whole(own2)
+                        outside_changed = [i for i in range(min(len(before), len(after))) if before[i] != after[i] and not (reg <= i < reg + size)]
+                        books = (own2.get_free(), own2.capacity, [(c.start, c.end) for c in own2.chunks])
+                        if outside_changed or books != (free0, cap0, chunks0):
+                            res.violations.append(common.violation("C11.no-side-effect", "buffer-touched-by-refused-constructor:x-refused-at-explicit-offset", f, cid,
+                                                                   "bytes outside the region %r, allocator books %r -> %r" % (outside_changed[:6], (free0, cap0, chunks0), books)))
+                        else:
+                            res.outcomes["refused-cleanly:x-refused-at-explicit-offset"] += 1
                     else:
-                        res.outcomes["refused-cleanly:x-refused-at-explicit-offset"] += 1
-                else:
-                    res.outcomes["accepted:x-refused-at-explicit-offset"] += 1
-                    res.violations.append(common.violation("C11.refused", "accepted-silently:x-refused-at-explicit-offset", f, cid, "a sequence for the scalar at %r was accepted" % (sc[-1],)))
+                        res.outcomes["accepted:x-refused-at-explicit-offset"] += 1
+                        res.violations.append(common.violation("C11.refused", "accepted-silently:x-refused-at-explicit-offset", f, cid, "a sequence for the scalar at %r was accepted" % (sc[-1],)))
         if t[0] == "U" and v is not None:
             # a stand-alone union reference built from a member OBJECT (living in some buffer) with an explicit offset and
             # no buffer of its own: refused, and the buffer of the member object is not touched
